@@ -985,7 +985,15 @@ func (g *FunctionGenerator[V]) GenerateFunc(ast parser2.AST, gc GeneratorContext
 			return nil, false, err
 		}
 		return func(st Stack[V], cs []V) (V, error) {
-			v, err := tryFunc(st, cs)
+			// a panic raised while evaluating the try expression is handled like an error
+			v, err := func() (v V, err error) {
+				defer func() {
+					if rec := recover(); rec != nil {
+						err = parser2.AnyToError(rec)
+					}
+				}()
+				return tryFunc(st, cs)
+			}()
 			if err == nil {
 				return v, nil
 			}
